@@ -332,6 +332,31 @@ pub fn f_types(thorough: bool) -> Vec<Ty> {
         out.push(strukt(repr_c, Style::Named, vec![Field::plain("a", p(Prim::U16)), ig.clone(), Field::plain("c", p(Prim::U16))]));
         ig.default = DefaultKind::Lit("7".into(), Val::U(7));
         out.push(strukt(repr_c, Style::Named, vec![Field::plain("a", p(Prim::U16)), ig, Field::plain("c", p(Prim::U16))]));
+        // ignored AND version-bounded (never written, never in the schema, at any version)
+        for (from, to) in [(0u32, 0u32), (1, u32::MAX), (1, 1)] {
+            let mut igv = versioned(Field::plain("g", p(Prim::U32)), from, to);
+            igv.ignore = true;
+            out.push(strukt(repr_c, Style::Named, vec![Field::plain("a", p(Prim::U16)), igv.clone(), Field::plain("c", p(Prim::U16))]));
+            igv.default = DefaultKind::Lit("7".into(), Val::U(7));
+            out.push(strukt(repr_c, Style::Named, vec![Field::plain("a", p(Prim::U32)), Field::plain("c", p(Prim::U32)), igv]));
+        }
+        // a removed field as the LAST thing in the encoding (nothing behind it re-discovers a
+        // problem while skipping it)
+        for t in [p(Prim::U32), p(Prim::String), Ty::Seq(SeqKind::Vec, Box::new(p(Prim::String)))] {
+            for flavour in [RemovedKind::Removed, RemovedKind::Abi] {
+                let mut r = versioned(Field::plain("b", t.clone()), 0, 0);
+                r.removed = flavour;
+                out.push(strukt(repr_c, Style::Named, vec![Field::plain("a", p(Prim::U32)), r]));
+            }
+        }
+        // Removed<T> whose range does not start at version 0 (added at 1, removed after 2)
+        for t in [p(Prim::U32), p(Prim::String)] {
+            for flavour in [RemovedKind::Removed, RemovedKind::Abi] {
+                let mut r = versioned(Field::plain("b", t.clone()), 1, 2);
+                r.removed = flavour;
+                out.push(strukt(repr_c, Style::Named, vec![Field::plain("a", p(Prim::U32)), r, Field::plain("c", p(Prim::U32))]));
+            }
+        }
         // converted field: u8 at v0, u16 from v1
         let mut cf = versioned(Field::plain("b", p(Prim::U16)), 1, u32::MAX);
         cf.versions_as = vec![VersionsAs {
